@@ -88,7 +88,7 @@ def _closed_mesh(rng, tier):
 def generate(rng, tier):
     cases = []
     q = tier == "quick"
-    for _ in range(6 if q else 40):
+    for i_st in range(6 if q else 40):
         us = []
         for _ in range(8):
             p = np.array([rng.gauss(0, 1) for _ in range(3)])
@@ -100,13 +100,13 @@ def generate(rng, tier):
                     p[2] = math.sqrt(max(0.0, 1 - p[0] ** 2 - p[1] ** 2))
             us.append(p.tolist())
         ws = [[rng.uniform(-3, 3) * rng.choice([1, 1, 1e-3, 50]), rng.uniform(-3, 3)] for _ in range(8)]
-        wdt = rng.choice(["float64", "float64", "int64", "float32"])
+        wdt = ["float64", "int64", "float32", "float64"][i_st % 4]          # every form in every run, whatever the seed
         if wdt == "int64":
             ws = [[float(rng.randint(-6, 6)), float(rng.randint(-6, 6))] for _ in range(8)]     # lattice / pixel-grid points
         elif wdt == "float32":
             ws = np.array(ws, dtype=np.float32).astype(float).tolist()
         cases.append({"kind": "stereo", "us": us, "ws": ws, "wdtype": wdt})
-    for _ in range(14 if q else 120):
+    for i_bc in range(14 if q else 120):
         v, t = _planar_mesh(rng, tier)
         if rng.random() < 0.4:
             t = [[r[0], r[2], r[1]] for r in t]
@@ -119,13 +119,13 @@ def generate(rng, tier):
         off = [rng.uniform(-2, 2) for _ in range(3)]
         zoff = rng.choice([0.0, 0.0, 5.0])
         nonplanar = rng.random() < 0.1
-        sc = rng.choice([1.0, 1.0, 1e-3, 1e-5, 200.0])
+        sc = [1.0, 1e-3, 1.0, 1e-5, 200.0][i_bc % 5]
         v = [[p[0] * sc, p[1] * sc, p[2]] for p in v]
         cases.append({"kind": "beltrami", "v": [[p[0], p[1], zoff + (0.01 * i if nonplanar else 0.0)] for i, p in enumerate(v)], "t": t,
                       "a": [a.real, a.imag], "b": [b.real, b.imag], "Q": Q.tolist(), "off": off, "nonplanar": nonplanar})
-    for _ in range(10 if q else 80):
+    for i_lb in range(10 if q else 80):
         v, t, bnd = _interface_grid(rng)
-        sc = rng.choice([1.0, 1.0, 1e-3, 1e-5, 200.0])          # the equation is scale invariant
+        sc = [1.0, 1e-3, 1.0, 1e-5, 200.0][i_lb % 5]          # the equation is scale invariant
         v = [[p[0] * sc, p[1] * sc, 0.0] for p in v]
         mu1 = _cx(rng, 0.6)
         mu2 = mu1 if rng.random() < 0.3 else _cx(rng, 0.6)
